@@ -134,6 +134,8 @@ def main(root, repo_src, plan_path):
         ns["__mapping__"] = mapping
         Impl = type("Impl", (Base,), ns)
         reqs = [behave.build(req_t, salt="q%d" % k) for k in range(call["nreq"] if cs else 1)]
+        if call.get("default_last") and reqs:
+            reqs[-1] = req_t()               # a message whose fields all hold their defaults is a message too (it is falsy)
         rec["sent"] = [bytes(r).hex() for r in reqs]
         try:
             async with ChannelFor([Impl()]) as channel:
